@@ -14,6 +14,8 @@ CLAIMED = {
          "Not decided: print/parse round trip, parser totality beyond the tokenizer, stack depth."),
  "C02": ("Deductive proof on the renderer: scalar/enum kind checks of every leaf walker as functional contracts over an abstract JSON view (null bubbles iff non-nullable, wrong kind rejected, right kind accepted), path-stack safety (push/pop balanced on every path, no underflow), astjson callee preconditions (SetNull/SetValue need a non-empty path — the walkArray defect F2 was found by this obligation and fixed), null-bubbling guards (a list/object/item is nulled only if it is nullable, only in the pre-walk), plan read-only for package resolve (SSA scan).",
          "Not decided: byte-level validity of printed scalars, key-set equality through defer filters, walkObject body (assumed contract), end-to-end projection equality, termination of the tree recursion. Known finding F6 (Int accepts 1.5)."),
+ "C06": ("Deductive proof of the per-level accept/reject guards of variables validation: required variable absent/null rejected, explicit null for a non-null input field rejected even with a default (defect F4/F5 found by this obligation and fixed), absent field with default accepted, list needs array, scalar kind table for String/Float/Boolean/ID/Int/enum/input object as iff-contracts over an abstract JSON view, errors are sticky, path stack restored, oneOf violations reported, content not echoed when disabled.",
+         "Not decided: the induction that composes the per-level guards into accept<=>coercible for nested values (paper lemma), custom scalars, the walker. Known finding: Int accepts 1.5."),
  "C16": ("Deductive proof of the storability clause on caching.TTL (public, no refusal directive, s-maxage before max-age before default, positive lifetime, int32 seconds never overflow), of the cache-control lexer (bounds, termination) and of 'refusal directives are never lost / public is never invented' through parseIdent and parse (ghost flags).",
          "Not decided: transparency of hits over request histories; Loader.responseCache* functions (contracts pending); fieldNamesArgument is assumed (range-over-func)."),
  "C14": ("Request side: proved chain isFetchAuthorizedFromCache (functional contract with quantified loop invariant over the seeded deny map) -> isFetchAuthorized -> validatePreFetch -> prepareSingleFetch (denied => skipLoad) -> loadPhase (skipLoad => executeSourceLoad is not called), plus the decision key as an uninterpreted-hash term of all three components.",
